@@ -7,8 +7,8 @@ import time
 HERE = os.path.dirname(os.path.abspath(__file__))
 VERIF = os.path.dirname(HERE)
 sys.path.insert(0, os.path.join(VERIF, "lib"))
-RUN = os.path.join(VERIF, "run")
-EVID = os.path.join(VERIF, "evidence")
+RUN = os.environ.get("VERIF_RUN_DIR") or os.path.join(VERIF, "run")      # (a private scratch directory for runs started side by side, e.g. against mutants)
+EVID = os.path.join(os.environ["VERIF_RUN_DIR"], "evidence") if os.environ.get("VERIF_RUN_DIR") else os.path.join(VERIF, "evidence")
 REPLAYS = os.path.join(RUN, "replays")
 for d in (RUN, EVID, REPLAYS):
     os.makedirs(d, exist_ok=True)
